@@ -1,7 +1,8 @@
 """Recording experiment components and experiment shapes for C02 (picklable, importable by spawned children).
 
-Every call of `triples(shape, order)` builds FRESH real coba environments / learners / evaluators, each wrapped in a
-thin recording wrapper that carries a tag.  The evaluator wrapper appends (env tag, learner tag, evaluator tag) to
+Every call of `triples(shape, order)` builds FRESH objects: real coba learners (RandomLearner, BanditEpsilonLearner) and
+evaluators (SequentialCB) on a cheap deterministic simulated environment, each wrapped in a thin recording wrapper that
+carries a tag.  The evaluator wrapper appends (env tag, learner tag, evaluator tag) to
 `CALLS` whenever coba asks it to evaluate a triple, so a harness can tell which triples a (resumed) run really
 evaluated.  Tags survive the deep copy coba makes of a learner that occurs in several triples.
 """
@@ -10,6 +11,7 @@ from coba.evaluators import SequentialCB
 from coba.primitives import Learner, Evaluator, Environment, SimulatedInteraction
 
 CALLS = []          # (env tag, learner tag, evaluator tag) per evaluate call, in call order; cleared by the harness
+                    # (process-local: a harness that resumes through real child processes has to collect it per process)
 
 
 class RecEnv(Environment):
